@@ -95,6 +95,35 @@ func H_C11_lastleave() {
 	vCover("C11 last-leave scenario complete")
 }
 
+// H_C11_closejoin: the only peer of a session leaves while the session is closed and a new peer joins
+// under the same session id.
+func H_C11_closejoin() {
+	for iter := 0; iter < vRepeat(3000); iter++ {
+		h := NewHub()
+		send := func(env protocol.Envelope) error { return nil }
+		rm0 := h.Add("s", Peer{PeerID: "p", Role: "sender", ConnID: "c0"}, send, nil)
+		done := make(chan struct{}, 2)
+		go func() { rm0(); done <- struct{}{} }()
+		go func() {
+			h.CloseSession("s")
+			h.Add("s", Peer{PeerID: "q", Role: "receiver", ConnID: "c1"}, send, nil)
+			done <- struct{}{}
+		}()
+		<-done
+		<-done
+		env := protocol.Envelope{V: 1, Type: "offer", MsgID: "m1", SessionID: "s", To: "q"}
+		vAssert(h.SendTo("s", "q", env), "a peer that connected after the session was closed and re-opened is routable")
+		listed := false
+		for _, pi := range h.List("s") {
+			if pi.PeerID == "q" {
+				listed = true
+			}
+		}
+		vAssert(listed, "a peer that connected after the session was closed and re-opened is listed")
+	}
+	vCover("C11 close-join scenario complete")
+}
+
 func init() {
 	if !vSymbolic() {
 		vHubYield = func() { time.Sleep(200 * time.Microsecond) }
